@@ -12,7 +12,8 @@ RULE = ('cases = (number of workers 1-4) x (stream length 0-8) x predicate patte
         'multiprocessing.Queue, queue.Queue and threading.Thread replaced (in the module\'s namespace, from the harness) by '
         'scheduler-controlled fakes whose put/get are the scheduling points; schedules are enumerated exhaustively for '
         'the smallest configurations and drawn from VERIF_SEED otherwise; non-trivial = at least one row goes through a '
-        'worker; distinct = (configuration, schedule)')
+        'worker; distinct = (configuration, schedule)'
+        '; round 4: the row function mutates a nested value, removes a key and adds a key')
 TRUSTED = ['Coq 8.16.1 kernel + vm_compute', 'harness/p18.py scheduler and fakes (thread-backed; a put/get is atomic and queues are FIFO, as the real ones are per producer)',
            'pickling across processes (a processed row is a copy) and process start-up/join are runtime behaviour outside the model']
 ASSUMES = ['row_func does not raise (a raising row_func is printed and the row delivered unprocessed: reported under C04)',
